@@ -171,4 +171,16 @@ fire("c05-state-after-error", ["C05"], RDR, "                if self._quitonerro
 silent("c05-dispatch-ge", ["C05"], [(RDR, "        if self._quitonerror == ERR_LOG:", "        if self._quitonerror >= ERR_LOG:")], "equivalent on the three modes (after the == ERR_RAISE test)")
 silent("c05-dispatch-always-called", ["C05"], [(RDR, "                if self._quitonerror:\n                    self._do_error(err)", "                self._do_error(err)")], "equivalent: the dispatcher does nothing in ignore mode")
 
+# ----------------------------------------------------------------------------- C17
+fire("c17-slice-on-validate", ["C17"], RDR, "        payload = message[3:-3]\n", "        payload = message[3:-3] if validate & VALCKSUM else message[3:]\n", "payload slice depends on validate (survives the test-suite)")
+fire("c17-trailer-read-on-validate", ["C17"], RDR, "        crc = self._read_bytes(3)\n", "        crc = self._read_bytes(3) if self._validate else b\"\"\n", "bytes taken depend on validate")
+fire("c17-trailer-read-on-parsed", ["C17"], RDR, "        crc = self._read_bytes(3)\n", "        crc = self._read_bytes(3) if self._parsed else self._read_bytes(2)\n")
+fire("c17-validate-off-returns-none", ["C17"], RDR, "        payload = message[3:-3]\n        return RTCMMessage(payload=payload, labelmsm=labelmsm)", "        payload = message[3:-3]\n        if not validate:\n            labelmsm = 2\n        return RTCMMessage(payload=payload, labelmsm=labelmsm)", "validate changes the label option")
+fire("c17-parsed-off-skips-noise-check", ["C17"], RDR, '                if byte1 not in (b"\\xb5", b"\\x24", b"\\xd3"):', '                if self._parsed and byte1 not in (b"\\xb5", b"\\x24", b"\\xd3"):', "parsed option changes framing")
+fire("c17-parsed-raw-differs", ["C17"], RDR, "        raw_data = hdr + hdr3 + payload + crc\n", "        raw_data = hdr + hdr3 + payload + crc if self._parsed else hdr + hdr3 + payload\n")
+fire("c17-ctor-reads-stream", ["C17"], RDR, "        self._logger = getLogger(__name__)\n", "        self._logger = getLogger(__name__)\n        if hasattr(datastream, \"peek\"):\n            datastream.peek(1)\n", "constructor touches the stream")
+fire("c17-validate-not-stored", ["C17"], RDR, "        self._validate = validate\n", "        self._validate = VALCKSUM\n", "validate option ignored by the reader")
+fire("c17-validate-not-forwarded", ["C17", "C01"], RDR, "                validate=self._validate,\n", "", "reader always validates")
+silent("c17-parse-positional", ["C17", "C01", "C05"], [(RDR, "            parsed_data = self.parse(\n                raw_data,\n                validate=self._validate,\n                labelmsm=self._labelmsm,\n            )", "            parsed_data = self.parse(raw_data, self._validate, self._labelmsm)")], "positional forwarding is equivalent")
+
 VARIANTS = V
